@@ -231,7 +231,7 @@ def check_case(ctx, case):
 
 
 def part_slots(ctx):
-    n = 900 if ctx.tier == "quick" else 6000
+    n = 900 if ctx.tier == "quick" else 20000
     hyp_run(ctx, CASE, lambda c: check_case(ctx, c), n, name="slots")
 
 
